@@ -178,6 +178,9 @@ func checkC07(p *core.Program, r *core.Report) {
 			key := fmt.Sprintf("%s(%q) in %s", name, strings.Join(pats, ","), shortFn(p.FnName(fn)))
 			tainted := docTainted(subject, 14, map[ssa.Value]bool{})
 			isPlaceholder := placeholder != "" && len(pats) == 1 && strings.Contains(pats[0], placeholder)
+			if !isPlaceholder && kind == "replace" && len(c.Args) >= 3 && !tainted && docTainted(c.Args[2], 14, map[ssa.Value]bool{}) {
+				isPlaceholder = true // a splice: untainted envelope text, document bytes only as the replacement
+			}
 			switch {
 			case isPlaceholder:
 				// R4
